@@ -112,3 +112,70 @@ where
     }
     json!({"results": out})
 }
+
+/// generated error types (C17): JSON document -> error value -> encode / Error::service*
+pub fn run_error<T>(req: &Value) -> Value
+where
+    T: Serialize + DeserializeOwned + Clone + conjure_error::ErrorType,
+{
+    use conjure_error::{encode, Error, ErrorKind, ErrorType, SerializableError};
+    fn to_value<S: Serialize>(v: &S) -> Value {
+        conjure_serde::json::to_string(v).ok().and_then(|s| serde_json::from_str(&s).ok()).unwrap_or(Value::Null)
+    }
+    fn params(e: &Error) -> Value {
+        let mut safe = serde_json::Map::new();
+        let mut unsafe_ = serde_json::Map::new();
+        for (k, v) in e.safe_params().iter() {
+            safe.insert(k.to_string(), to_value(v));
+        }
+        for (k, v) in e.unsafe_params().iter() {
+            unsafe_.insert(k.to_string(), to_value(v));
+        }
+        let kind = match e.kind() {
+            ErrorKind::Service(s) => to_value(s),
+            _ => json!("not-a-service-error"),
+        };
+        json!({"safe": safe, "unsafe": unsafe_, "cause_safe": e.cause_safe(), "kind": kind})
+    }
+    let id = conjure_object::Uuid::from_u128(0x0123_4567_89ab_4def_8edc_ba98_7654_3210);
+    let mut out = vec![];
+    for d in req["docs"].as_array().unwrap() {
+        let doc = d.as_str().unwrap();
+        let v: T = match conjure_serde::json::client_from_str::<T>(doc) {
+            Err(e) => {
+                out.push(json!({"skip": e.to_string()}));
+                continue;
+            }
+            Ok(v) => v,
+        };
+        let enc = encode(&v);
+        let enc2 = encode(&v);
+        let with_id = encode(&v.clone().with_instance_id(id));
+        let text = conjure_serde::json::to_string(&enc).unwrap_or_default();
+        let back = conjure_serde::json::client_from_str::<SerializableError>(&text);
+        let (rt_equal, rt_text) = match &back {
+            Ok(b) => (*b == enc, conjure_serde::json::to_string(b).unwrap_or_default()),
+            Err(e) => (false, format!("<rejected: {}>", e)),
+        };
+        let smile = conjure_serde::smile::to_vec(&enc).ok().and_then(|b| conjure_serde::smile::client_from_slice::<SerializableError>(&b).ok()).map(|b| b == enc).unwrap_or(false);
+        out.push(json!({
+            "code": to_value(&v.code()),
+            "status": v.code().status_code(),
+            "name": v.name(),
+            "instance_id": v.instance_id().map(|u| u.to_string()),
+            "safe_args": v.safe_args(),
+            "encoded": to_value(&enc),
+            "second_instance_id": enc2.error_instance_id().to_string(),
+            "with_id": to_value(&with_id),
+            "json_roundtrip_equal": rt_equal,
+            "json_text": text,
+            "json_text_after_roundtrip": rt_text,
+            "smile_roundtrip_equal": smile,
+            "service": params(&Error::service("cause", v.clone())),
+            "service_safe": params(&Error::service_safe("cause", v.clone())),
+            "propagated": params(&Error::propagated_service("cause", enc.clone())),
+            "propagated_safe": params(&Error::propagated_service_safe("cause", enc.clone())),
+        }));
+    }
+    json!({"results": out})
+}
